@@ -51,7 +51,7 @@ func judge(out *pipe.Outcome, ix *pipe.Index) pipe.Verdict {
 		}
 	}
 	v.Nontrivial = j.Obligations >= 5
-	v.SigExtra = fmt.Sprintf("w%d|%s", workers, pipe.CompletionOrderSig(out.Evs))
+	v.SigExtra = fmt.Sprintf("w%d|%s", workers, pipe.CompletionOrderClass(out.Evs))
 	return v
 }
 
